@@ -1,17 +1,80 @@
-//go:build blackbox
+//go:build nooverlay
 
 package main
 
 import (
+	"math/bits"
 	"strconv"
 	"strings"
 )
 
-// Black-box fallback, used by vlib/C06.py only when the private declarations of package redblack have been refactored
-// beyond what the overlay's accessor block can be rewritten for: `dump` shows the in-order content instead of the node
-// structure (the check then does not compare it with the model's shape) and `inv` checks what the exported API shows:
-// order, Count, ReverseTraverse = reverse of Traverse, First/Last = the ends. Balance is then observed only through the
-// comparison bound (cmp-ok / cmp-bad).
+// Black-box substitute for the overlay, built (tag nooverlay, no -overlay) when the overlay does not compile against
+// the working tree, e.g. after a refactoring of the private declarations of package redblack that vlib/C06.py could not
+// adapt the accessor block to. Node structure and colours are then read from the text the exported Tree.Dump() prints
+// (pre-order, two blanks of indentation per level, `r`/`b`, `L `/`R ` for the side, the key). Not observable this way:
+// parent links and which VALUE sits in which node (dumps are compared without values). If the text cannot be parsed
+// (a refactoring may change this debugging output) `dump` answers `dump-unavailable` — the check then does not
+// compare shape at all — and `inv` checks only what the rest of the exported API shows; balance is then observed through
+// the comparison bound (cmp-ok / cmp-bad) alone.
+
+type bnode struct {
+	black       bool
+	key         int
+	left, right *bnode
+}
+
+// parseDump rebuilds the tree from Dump's text; ok=false if the text does not have the expected form.
+func parseDump(text string) (root *bnode, nodes int, ok bool) {
+	if text == "" {
+		return nil, 0, true
+	}
+	var stack []*bnode // stack[d] = the last node seen at depth d
+	for _, line := range strings.Split(strings.TrimSuffix(text, "\n"), "\n") {
+		trimmed := strings.TrimLeft(line, " ")
+		indent := len(line) - len(trimmed)
+		if indent%2 != 0 || len(trimmed) < 2 || (trimmed[0] != 'r' && trimmed[0] != 'b') {
+			return nil, 0, false
+		}
+		depth := indent / 2
+		n := &bnode{black: trimmed[0] == 'b'}
+		rest := trimmed[1:]
+		side := byte(0)
+		if strings.HasPrefix(rest, "L ") || strings.HasPrefix(rest, "R ") {
+			side = rest[0]
+			rest = rest[2:]
+		}
+		k, err := strconv.Atoi(rest)
+		if err != nil {
+			return nil, 0, false
+		}
+		n.key = k
+		nodes++
+		switch {
+		case depth == 0:
+			if side != 0 || root != nil {
+				return nil, 0, false
+			}
+			root = n
+		case depth > len(stack) || side == 0:
+			return nil, 0, false
+		default:
+			p := stack[depth-1]
+			if side == 'L' {
+				if p.left != nil || p.right != nil { // pre-order: the left child comes first
+					return nil, 0, false
+				}
+				p.left = n
+			} else {
+				if p.right != nil {
+					return nil, 0, false
+				}
+				p.right = n
+			}
+		}
+		stack = append(stack[:depth], n)
+	}
+	return root, nodes, root != nil
+}
 
 type kv struct{ k, v int }
 
@@ -29,16 +92,62 @@ func inorder(s *session, reverse bool) []kv {
 	return out
 }
 
-func verifDump(s *session) string {
-	var sb strings.Builder
-	sb.WriteString("inorder")
-	for _, e := range inorder(s, false) {
-		sb.WriteByte(' ')
-		sb.WriteString(strconv.Itoa(e.k))
-		sb.WriteByte(':')
-		sb.WriteString(strconv.Itoa(e.v))
+// structure returns the tree read from Dump(), provided its in-order key sequence is exactly what Traverse reports.
+func structure(s *session) (*bnode, bool) {
+	root, nodes, ok := parseDump(captureDump(s.tree))
+	if !ok {
+		return nil, false
 	}
-	sb.WriteString(" parents=ok")
+	fw := inorder(s, false)
+	if nodes != len(fw) {
+		return nil, false
+	}
+	i := 0
+	good := true
+	var walk func(n *bnode)
+	walk = func(n *bnode) {
+		if n == nil || !good {
+			return
+		}
+		walk(n.left)
+		if i >= len(fw) || fw[i].k != n.key {
+			good = false
+			return
+		}
+		i++
+		walk(n.right)
+	}
+	walk(root)
+	return root, good
+}
+
+func verifDump(s *session) string {
+	root, ok := structure(s)
+	if !ok {
+		return "dump-unavailable parents=ok"
+	}
+	var sb strings.Builder
+	var walk func(n *bnode)
+	walk = func(n *bnode) {
+		if n == nil {
+			sb.WriteByte('.')
+			return
+		}
+		sb.WriteByte('(')
+		if n.black {
+			sb.WriteByte('b')
+		} else {
+			sb.WriteByte('r')
+		}
+		sb.WriteString(strconv.Itoa(n.key))
+		sb.WriteByte(' ')
+		walk(n.left)
+		sb.WriteByte(' ')
+		walk(n.right)
+		sb.WriteByte(')')
+	}
+	walk(root)
+	sb.WriteString(" parents=ok") // parent links are not observable without the overlay
 	return sb.String()
 }
 
@@ -68,6 +177,49 @@ func verifCheck(s *session) string {
 	}
 	if len(fw) > 0 && (first != fw[0].v || last != fw[len(fw)-1].v) {
 		return "FAIL First/Last"
+	}
+	if len(fw) == 0 {
+		return "ok"
+	}
+	root, ok := structure(s)
+	if !ok {
+		return "ok" // Dump's text is not usable: balance is observed through the comparison bound only
+	}
+	// the red-black invariants on the structure Dump() shows
+	if !root.black {
+		return "FAIL root is red"
+	}
+	problem := ""
+	height, depth := 0, 0
+	var walk func(n *bnode) int
+	walk = func(n *bnode) int {
+		if n == nil || problem != "" {
+			return 1
+		}
+		depth++
+		if depth > height {
+			height = depth
+		}
+		defer func() { depth-- }()
+		red := func(m *bnode) bool { return m != nil && !m.black }
+		if red(n) && (red(n.left) || red(n.right)) {
+			problem = "FAIL red node " + strconv.Itoa(n.key) + " has a red child"
+		}
+		lh, rh := walk(n.left), walk(n.right)
+		if lh != rh && problem == "" {
+			problem = "FAIL black heights " + strconv.Itoa(lh) + "/" + strconv.Itoa(rh) + " below " + strconv.Itoa(n.key)
+		}
+		if n.black {
+			return lh + 1
+		}
+		return lh
+	}
+	walk(root)
+	if problem != "" {
+		return problem
+	}
+	if limit := 2 * (bits.Len(uint(len(fw)+1)) - 1); height > limit {
+		return "FAIL height=" + strconv.Itoa(height) + " limit=" + strconv.Itoa(limit) + " nodes=" + strconv.Itoa(len(fw))
 	}
 	return "ok"
 }
